@@ -26,7 +26,7 @@ PROPS = {
         assumptions=[],
     ),
     "C24": dict(
-        units=["u16_prelude", "u1_int", "u2_float", "u3_str", "u4a_ctrl"],
+        units=["u16_prelude", "u1_int", "u2_float", "u3_str", "u4a_ctrl", "u9_opt"],
         level="proof",
         level_text=("Prelude Equal/Ord/Hash impls for bool, void and 2-4-tuples are cut from modules/prelude.abra by name on each run, "
                     "parsed by a subset parser mirroring parse.rs, symbolically evaluated, and each law (equivalence, le<=>not lt swapped, "
@@ -66,7 +66,7 @@ PROPS = {
         assumptions=["operand preconditions of the arms are assumed to be established by the compiler (not verified)"],
     ),
     "C17": dict(
-        units=["u3_str"],
+        units=["u3_str", "u9_opt"],
         level="proof",
         level_text=("The six string comparison arms and ConcatStrings are cut from vm.rs and verified by Verus as resumable state "
                     "machines: from any state satisfying the invariant (common prefix of length idx / builder == (a++b)[..i1+i2]) one "
@@ -76,8 +76,8 @@ PROPS = {
         level_note=("Strings are their UTF-8 byte sequences (R4); content of a string object is a function of its pointer (immutability; "
                     "liveness during the operation is C06's obligation, where string_operand1/2 are roots); from_utf8 of a concatenation of "
                     "valid UTF-8 is assumed to succeed; that `!=` is Equal followed by Not is a syntactic check in C24's unit."),
-        technique="deductive verification (Verus) of lifted real match arms with per-step inductive contracts",
-        scope="string arms of the VM",
+        technique="deductive verification (Verus) of lifted real match arms with per-step inductive contracts + Verus on the real optimizer (operand fusion / dest replacement keep the opcode)",
+        scope="string arms of the VM; optimizer rewrites of the string instructions",
         assumptions=[],
     ),
     "C26": dict(
